@@ -336,28 +336,50 @@ def _norm_index(i, dim):
     return i
 
 
+def count_true(m):
+    """Number of true entries of a boolean array: a constant attached to named (uninterpreted) arrays,
+    a fresh constant otherwise."""
+    c = ctx()
+    if m.cnt is not None:
+        n = m.cnt
+    else:
+        n = m.cnt = z3.Int(c.fresh("cnt"))
+    c.add_fact(z3.And(n >= 0, n <= m.size()), key=("cnt", str(n)))
+    return n
+
+
 def mask_select(a, m, axis=0):
     """a[m] for a 1-D boolean mask over axis 0 (rows): order-preserving subsequence."""
     c = ctx()
     nm = c.fresh("sel")
-    n = z3.Int(nm + "!n")
+    n = count_true(m)
     sel = c.uf(nm, z3.IntSort(), z3.IntSort())
     rows = a.shape[0]
     c.add_fact(z3.And(n >= 0, n <= rows))
-    k, k2, i = z3.Int(nm + "!k"), z3.Int(nm + "!k2"), z3.Int(nm + "!i")
-    # strictly increasing (order preserving) - quantified, pattern on sel
-    c.add_fact(z3.ForAll([k, k2], z3.Implies(z3.And(0 <= k, k < k2, k2 < n), sel(k) < sel(k2)), patterns=[z3.MultiPattern(sel(k), sel(k2))]))
-    # completeness through an inverse
     inv = c.uf(nm + "!inv", z3.IntSort(), z3.IntSort())
-    c.binders.append([i])
-    try:
-        mi = m.elem(i)
-    finally:
-        c.binders.pop()
-    c.add_fact(z3.ForAll([i], z3.Implies(z3.And(0 <= i, i < rows, mi), z3.And(0 <= inv(i), inv(i) < n, sel(inv(i)) == i)), patterns=[inv(i)]))
-    c.add_fact(z3.ForAll([k], z3.Implies(z3.And(0 <= k, k < n), z3.And(0 <= sel(k), sel(k) < rows, inv(sel(k)) == k)), patterns=[sel(k)]))
+    done = []
+
+    def axioms():
+        # emitted lazily: only when an element of the selection is actually used
+        if done:
+            return
+        done.append(1)
+        saved, c.binders = c.binders, []
+        k, k2, i = z3.Int(nm + "!k"), z3.Int(nm + "!k2"), z3.Int(nm + "!i")
+        # strictly increasing (order preserving)
+        c.add_fact(z3.ForAll([k, k2], z3.Implies(z3.And(0 <= k, k < k2, k2 < n), sel(k) < sel(k2)), patterns=[z3.MultiPattern(sel(k), sel(k2))]))
+        # completeness through an inverse
+        c.binders.append([i])
+        try:
+            mi = m.elem(i)
+        finally:
+            c.binders.pop()
+        c.add_fact(z3.ForAll([i], z3.Implies(z3.And(0 <= i, i < rows, mi), z3.And(0 <= inv(i), inv(i) < n, sel(inv(i)) == i)), patterns=[inv(i)]))
+        c.add_fact(z3.ForAll([k], z3.Implies(z3.And(0 <= k, k < n), z3.And(0 <= sel(k), sel(k) < rows, inv(sel(k)) == k)), patterns=[sel(k)]))
+        c.binders = saved
 
     def fact_at(kk):
+        axioms()
         c.add_fact(z3.Implies(z3.And(0 <= kk, kk < n), z3.And(0 <= sel(kk), sel(kk) < rows, m.elem(sel(kk)))), key=("sel", nm, str(kk)))
 
     if a.ndim == 1:
